@@ -166,9 +166,14 @@ for mod, K, vpred, vkind, types_src, kws, cond, extra in TABLE:
         continue          # Required overrides from_element (contracts/validation_object.py)
     names = list(kws)
     missing = " or ".join(f"(attr_absent(element,'{k}') or is_np(element.{k}))" for k in names)
+    # __properties__ is a computed property (a fresh Properties object per access): only its class is promised
+    same = (lambda k: f"isinstance(result.params['{k}'], Properties)") if K == "AdditionalProperties" else (lambda k: f"result.params['{k}'] is element.{k}")
     params = " and ".join([f"dict_wf(result.params) and len(result.params) == {len(names)}"] +
-                          [f"has(result.params,'{k}') and result.params['{k}'] is element.{k}" for k in names])
-    contract(BASE + "Validator.from_element", inst=K, requires="is_obj(element) or is_cls(element)",
+                          [f"has(result.params,'{k}') and {same(k)}" for k in names])
+    req = "is_obj(element) or is_cls(element)"
+    if K == "AdditionalProperties":
+        req = "(" + req + ") and (attr_absent(element,'__properties__') or is_np(element.__properties__) or isinstance(element.__properties__, Properties))"
+    contract(BASE + "Validator.from_element", inst=K, requires=req,
              returns=f"(result is None) == ({missing}) and implies(result is not None, type_is(result, {K}) and {params})",
              props=FE_PROPS)
 
